@@ -1,5 +1,6 @@
 """Core pandas schema component specifications."""
 
+import copy
 import warnings
 from typing import Any, Dict, Iterable, List, Optional, Tuple, Union, cast
 
@@ -435,7 +436,21 @@ class MultiIndex(DataFrameSchema):
     def strategy(self, *, size=None):  # type: ignore
         import pandera.strategies as st
 
-        return st.multiindex_strategy(indexes=self.indexes, size=size)
+        indexes = self.indexes
+        if self.unique:
+            # like the dataframe strategy: every level listed in `unique` is
+            # made independently unique, which is stricter than, and
+            # therefore fulfills, joint uniqueness
+            unique = (
+                [self.unique] if isinstance(self.unique, str) else self.unique
+            )
+            indexes = []
+            for index in self.indexes:
+                if index.name in unique:
+                    index = copy.deepcopy(index)
+                    index.unique = True
+                indexes.append(index)
+        return st.multiindex_strategy(indexes=indexes, size=size)
 
     # NOTE: remove these ignore statements as part of
     # https://github.com/pandera-dev/pandera/issues/403
